@@ -255,6 +255,9 @@ func run(c *hk.Ctx) {
 					continue
 				}
 				confirmed[fp] = true
+				if strings.HasSuffix(fp, ":call_never_returns") {
+					hangCeilings[sc.transportTag()] = latencyCeiling + 500*time.Millisecond
+				}
 				c.Violate(hk.Violation{Fingerprint: fp, What: p.what, Input: sc, Observed: p.observed})
 			}
 			if invalid {
